@@ -112,6 +112,19 @@ func isoCorpus(e *ev.Env) {
 		{"malformed-then-handler-returns-errbadrequest", isoCase{History: []wreq{
 			{Kind: "malformed", Kills: true, Raw: []byte("GET /account HTTP/1.1\r\nHost: x\r\nCookie: session=secret\r\nContent-Length: abc\r\n\r\n")}},
 			Probe: probeSpec{Route: 4, Class: ckNone, Raw: rawReq(reqSpec{Target: "/probeplain?ret=bad-request"})}}},
+		{"sitevars-then-per-request-viewbind", isoCase{Cfg: isoCfg{SiteVars: true}, History: []wreq{
+			{Kind: "locals", Raw: rawReq(reqSpec{Target: "/locals/alice"})}},
+			Probe: probeWith("/probeplain", ckNone, nil)}},
+		{"trusted-proxy-connection-then-direct-client", isoCase{Cfg: isoCfg{Trust: 1, Touch: true}, HistRemote: 0, ProbeRemote: 1, History: []wreq{
+			{Kind: "forwarded", Raw: rawReq(reqSpec{Target: "/base", Hdr: [][2]string{{"X-Forwarded-For", "6.6.6.6"}, {"X-Forwarded-Proto", "https"}}})}},
+			Probe: probeSpec{Route: 4, Class: ckNone, Raw: rawReq(reqSpec{Target: "/probeplain", Hdr: [][2]string{{"X-Forwarded-For", "9.9.9.9"}, {"X-Forwarded-Proto", "https"}}})}}},
+		{"direct-client-then-trusted-proxy-connection", isoCase{Cfg: isoCfg{Trust: 1, Touch: true}, HistRemote: 1, ProbeRemote: 0, History: []wreq{
+			{Kind: "forwarded", Raw: rawReq(reqSpec{Target: "/base", Hdr: [][2]string{{"X-Forwarded-For", "6.6.6.6"}, {"X-Forwarded-Proto", "https"}}})}},
+			Probe: probeSpec{Route: 4, Class: ckNone, Raw: rawReq(reqSpec{Target: "/probeplain", Hdr: [][2]string{{"X-Forwarded-For", "9.9.9.9"}, {"X-Forwarded-Proto", "https"}}})}}},
+		{"missing-file-served-while-file-probe-is-open", isoCase{History: []wreq{
+			{Kind: "sendfile", Raw: rawReq(reqSpec{Target: "/file/0?f=a"})}},
+			Intruders: []wreq{{Kind: "sendfile-missing", Raw: rawReq(reqSpec{Target: "/file/0?f=x"})}},
+			Probe:     probeSpec{Route: -1, Class: ckNone, Variant: "sendfile", Raw: rawReq(reqSpec{Target: "/file/0?probe=1&f=a&hold=1"})}}},
 		{"server-error-path-then-probe", isoCase{History: []wreq{
 			{Kind: "locals", Cookie: ckValid, Raw: rawReq(reqSpec{Target: "/locals/h0", Cookie: one})},
 			{Kind: "malformed", Kills: true, Raw: []byte("GET\r\n\r\n")}},
